@@ -153,8 +153,9 @@ def routing(chk, trio_entry):
     ctor_args_ok = False
     if src is not None:
         var = src.targets[0].id if isinstance(src.targets[0], ast.Name) else None
+        type_vars = {f.target.id for f in ast.walk(launch.node) if isinstance(f, ast.For) and isinstance(f.target, ast.Name) and "runner_types" in util.unparse(f.iter)}
         for n in ast.walk(launch.node):
-            if isinstance(n, ast.Call) and isinstance(n.func, ast.Name) and n.func.id == "runner_type" and n.args and isinstance(n.args[0], ast.Name) and n.args[0].id == var:
+            if isinstance(n, ast.Call) and isinstance(n.func, ast.Name) and n.func.id in type_vars and n.args and isinstance(n.args[0], ast.Name) and n.args[0].id == var:
                 ctor_args_ok = True
     if launch.is_async and ctor_args_ok:
         chk.ok(rule, launch.qual, "every runner receives the loop obtained inside the running event loop", node=src)
